@@ -233,6 +233,17 @@ def run(ctx):
                           {"config": [s, l, span, height, load], "args": args, "failures": fails[:10]})
             concrete += 1
     ctx.log("%d generations of large or finely divided frames checked against the documentation" % big_runs)
+    # several definitions written one after the other by one process: each is what a process of its own prints
+    seq = [(30, 20), (2, 1), (40, 25), (1, 1), (3, 2)] if ctx.tier == "quick" else [(30, 20), (2, 1), (40, 25), (1, 1), (3, 2), (60, 14), (2, 2), (0, 3)]
+    many = C.dump("defwrites", [{"Spans": s_, "Levels": l_, "Span": "400", "Height": "300", "Load": "50"} for s_, l_ in seq], timeout=600)
+    for (s_, l_), text in zip(seq, many):
+        alone = cli.run(ctx, ["generate", "--type", "retic", "--spans", str(s_), "--levels", str(l_)], name="c19").stdout
+        if sorted(text.split("\n")) != sorted(alone.split("\n")):
+            ctx.violation("written after other definitions in one process, the %d x %d frame is not the text `generate --spans %d --levels %d` prints (%d vs %d bytes)" % (
+                s_, l_, s_, l_, len(text), len(alone)), {"sequence": seq, "how": "harness/bin/dump defwrites (generate.Reticular + io/def Write, one process)", "head": text[:300]})
+            concrete += 1
+            break
+    ctx.log("%d definitions written one after the other in one process, each compared with what generate prints" % len(seq))
     for k in sorted(known)[:4]:
         ctx.known.append(k)
     validated = 0
